@@ -70,6 +70,62 @@ CLAIMED["C19"] = dict(
   note=STATIC_NOTE,
   technique="lock-set + publish-last ordering over linearised initialiser bodies + who-may-write whitelist")
 
+CLAIMED["C04"] = dict(
+  text="Decides the decision structure the context documents: identify_record returns the first record of the category's list (built in configured scheme "
+       "order) whose identify() accepts; needs_update() and verify_and_update() use the same predicate `deprecated or scheme.needs_update`; the three result "
+       "shapes and the rehash with the same category and context keywords; new hashes from the category's record; option overlay order with filtering that "
+       "keeps every declared setting; deprecated='auto' / default-scheme resolution; clip and flag use the same window with strict comparisons; a cost "
+       "generator that raises the clipped default re-checks the maximum afterwards; per-category options are exported by key presence; the libpass context "
+       "facts. Not decided: behaviour over the combinatorial configuration space as executed.",
+  note=STATIC_NOTE, technique="shape conformance of the policy functions against documented policy facts + sibling-predicate agreement")
+CLAIMED["C10"] = dict(
+  text="Decides that CryptContext.load() has a single commit point: no store to self and no self-mutating call before `config = _CryptConfig(source)`; after it "
+       "only non-raising rebinding statements, and every piece of live state (_config, _get_record, _identify_record, dummy-hash cache, the strip-kwds "
+       "override on both branches) is refreshed unconditionally; only load() writes that state and all other entry points go through it; update() overlays "
+       "onto a fresh dict built with resolved handler objects; list values are copied on export and options are exported by key presence; records are "
+       "fresh subclasses; key render/parse are inverse on their three shapes and floats are rendered losslessly. Not decided: equality of decisions after a "
+       "round trip as executed.",
+  note=STATIC_NOTE, technique="effect ordering around a commit point (syntax-directed), who-may-write, codec-pair agreement")
+CLAIMED["C13"] = dict(
+  text="Decides that TOTP._generate and the time arithmetic have the RFC 4226/6238 shape (>Q counter, low-nibble offset, 4 bytes >I masked 0x7FFFFFFF, zero-padded "
+       "decimal last `digits` digits, counter = time // period, validity interval, digits 6..10), date-times go through utctimetuple, key text is cleaned before "
+       "both the hex and base32 branches and typo-corrected for bytes and text alike, and compile_hmac prepares keys per RFC 2104 (hash iff longer than the "
+       "block, decided from the path condition; hashed keys padded; ipad/opad tables and roles). Not decided: hashlib's digests, datetime internals.",
+  note=STATIC_NOTE, technique="normalised-expression conformance against RFC kernels + path-condition analysis of the HMAC key preparation")
+CLAIMED["C14"] = dict(
+  text="Decides the decision table of TOTP.match/_find_match through its comparisons: start = max(last_counter, floor((t+skew-window)/period)) clamped at 0, end = "
+       "floor((t+skew+window)/period)+1 exclusive, ascending scan returning the first constant-time hit with no `expected` shortcut, `last_counter is None` "
+       "(not falsiness) for no history, equality with last_counter -> UsedTokenError, empty range / no hit -> InvalidTokenError, malformed token refused before "
+       "any comparison. Not decided: multi-step histories as executed.",
+  note=STATIC_NOTE, technique="shape conformance of window arithmetic and scan loop + falsy-zero lint")
+CLAIMED["C15"] = dict(
+  text="Decides writer/reader table agreement for TOTP serialisation: every key to_dict() writes is consumed by name, each optional field has its own "
+       "independent guard, URI parameters written are the ones read, query values are stored as parse_qsl decoded them (single unquote), the path label takes "
+       "part in duplicate detection, conflicting/missing/unknown items raise ValueError, the encrypted-key record keys and argument roles agree between "
+       "encrypt_key and decrypt_key. Default elision vs. rebindable class defaults is reported as recorded finding F12 (6 sites, known_findings.json). "
+       "Not decided: urllib's quoting of arbitrary text, AES.",
+  note=STATIC_NOTE, technique="writer/reader key-table agreement + elision-constant vs. reader-default rule")
+CLAIMED["C16"] = dict(
+  text="Decides for passlib.apache (not executed by the suite): who-may-write table for _records/_source; the append guard of _set_record consults _source "
+       "(coherence with delete); user/realm reach the table only through the encoders, which reject ':' NL CR TAB NUL and >255 encoded bytes; every mutation in a "
+       "public mutator is followed by _autosave(); save/load maintain _mtime; record parse/render agree on field count and order; loader keeps comments, first "
+       "duplicate wins, state installed only after the whole input parsed; htdigest positional shims and realm filters. Not decided: operation histories as executed.",
+  note=STATIC_NOTE, technique="who-may-write + must-follow (autosave) + parse/render table agreement")
+CLAIMED["C17"] = dict(
+  text="Decides exhaustively over host capabilities: every registry name loads an object carrying that name (76) and passlib/hash.py lists the same set; for each "
+       "exported preset (apps, hosts incl. host_context over all 128 crypt() subsets, htpasswd_context over the same 128, the Django default) the identify() "
+       "language (DFA extracted from source: ident / ident_values / regex / parse-to-identify / custom bodies / prefix wrappers) of an earlier scheme is disjoint "
+       "from that of every later non-catch-all scheme on printable non-space ASCII; preset defaults/deprecated lists are consistent. Not decided: that each "
+       "scheme's generated hashes lie inside its identify language.",
+  note=STATIC_NOTE + " Representative alphabet: printable ASCII, NL, TAB, NUL and one non-ASCII stand-in.",
+  technique="regex->DFA language extraction, product emptiness, constant propagation of preset builders over all host subsets")
+CLAIMED["C18"] = dict(
+  text="Decides: every return of verify() in every DisabledHash subclass is literal False and is_disabled is claimed only there; verify/verify_and_update with "
+       "hash None call dummy_verify() without arguments and return constants; dummy_verify answers False; the dummy-hash cache is dropped unconditionally after "
+       "each policy replacement; enable() returns enabled hashes unchanged; unix_disabled disable/enable/identify/using marker algebra. Not decided: disable/enable "
+       "histories as executed.",
+  note=STATIC_NOTE, technique="literal-return discipline + shape conformance of the marker algebra")
+
 NOT_APPLICABLE = {p: "check under construction in this session (will be claimed once its rules are built and validated on the clean tree)"
                   for p in ["C%02d" % i for i in range(1, 21)] if p not in CLAIMED}
 NOTES = ("All checks are static: ./check <ID> parses /repo's working tree on every run (81 units), evaluates the property's rules at every site and "
